@@ -173,19 +173,28 @@ def chgScan (st : Nat) : List Nat → List Nat → List Nat
 def fileChg (f : File) (st : Nat) (ids : List Nat) : File × Bool :=
   ({ f with mwords := chgScan st ids.eraseDups f.mwords }, true)
 
+/-- The item `purge` re-packs (`append_moc_bytes(status, id, depth, ...)`) and copies from a row. -/
+def rowItem (hdr : Nat) (data : List Nat) (r : Nat × Nat × Nat) : Item :=
+  (pack (wStatus r.1) (wDepth r.1) (wId r.1), slice data (r.2.1 - hdr) (r.2.2 - hdr))
+
 /-- `purge`: a new file holding the live rows, re-packed, their bytes copied. -/
 def filePurge (f : File) (n : Option Nat) : File × Bool :=
-  let hdr := hdrBytes f.n128
-  let live := f.rows.filter fun r => wStatus r.1 > 1
-  (build (max (n.getD 1) f.n128)
-    (live.map fun r => (pack (wStatus r.1) (wDepth r.1) (wId r.1), slice f.data (r.2.1 - hdr) (r.2.2 - hdr))) [],
-   true)
+  let live := f.rows.filter fun r => decide (wStatus r.1 > 1)
+  (build (max (n.getD 1) f.n128) (live.map (rowItem (hdrBytes f.n128) f.data)) [], true)
 
 /-- `make` (same refusals as the abstract command). -/
 def fileMake (n128 : Nat) (l : List MsEntry) : Option File :=
   match msMake n128 l with
   | some _ => some (build n128 (l.map itemOf) [])
   | none => none
+
+/-- A history of update commands run on the file. -/
+def fileStep (f : File) : MsCmd → File
+  | .append e => (fileAppend f e).1
+  | .chg st ids => (fileChg f st ids).1
+  | .purge n => (filePurge f n).1
+
+def fileRun (f : File) (cs : List MsCmd) : File := cs.foldl fileStep f
 
 /-- The three stores of `append`, one at a time, in the (repaired) program order: data, index word,
     metadata word.  `k` = number of stores already performed (C16: what a reader sees if the writer
